@@ -51,11 +51,11 @@ type frFamily struct {
 	OverAdd int64  `json:"over_add"` // oversize length field = Max + over_add (when > 0) ...
 	OverAbs int64  `json:"over_abs"` // ... or this absolute value
 	Over    int64  `json:"-"`
-	Rest    int    `json:"rest"`     // bytes following an oversize header when the model has some (-1: as many as announced)
-	HdrCut  int    `json:"hdr_cut"`  // real offset of "inside the header" (1..47)
-	Inter   string `json:"inter"`    // early | late | spread: real offsets of "inside the payload"
-	Chunker string `json:"chunker"`  // all | one | rand | split
-	Fill    string `json:"fill"`     // rand | frames: payload content (frames: looks like a sequence of oversize headers)
+	Rest    int    `json:"rest"`    // bytes following an oversize header when the model has some (-1: as many as announced)
+	HdrCut  int    `json:"hdr_cut"` // real offset of "inside the header" (1..47)
+	Inter   string `json:"inter"`   // early | late | spread: real offsets of "inside the payload"
+	Chunker string `json:"chunker"` // all | one | rand | split
+	Fill    string `json:"fill"`    // rand | frames: payload content (frames: looks like a sequence of oversize headers)
 	Salt    int64  `json:"salt"`
 }
 
@@ -65,8 +65,8 @@ type frInput struct {
 	Cases     []frCase   `json:"cases"`
 	Families  []frFamily `json:"families"`
 	RandomN   int        `json:"random_streams"`
-	SmallMax  uint32     `json:"small_max"`   // the configured maximum of the small-scale phase
-	TrueEvery int        `json:"true_every"`  // true-scale families replay every n-th case (the 8 MB frames are expensive)
+	SmallMax  uint32     `json:"small_max"`  // the configured maximum of the small-scale phase
+	TrueEvery int        `json:"true_every"` // true-scale families replay every n-th case (the 8 MB frames are expensive)
 }
 
 // resolve the lengths of a family against the currently configured maximum
